@@ -453,6 +453,41 @@ def case_error(case):
     return {'viol': viol, 'nontrivial': [engine.sha(case)], 'outcomes': ['err/%s/%s' % (which, outcome)]}
 
 
+def case_rfi_family(case):
+    """
+    simple_rfi_path beyond the twin: what its docstring states about the draws, checked on two
+    identically seeded instances.  "stationary only offsets with respect to a straight-line path, but
+    random_walk accumulates frequency offsets over time"; spread = "range of center frequency
+    variations" (uniform: offsets within +-spread/2).
+    """
+    import setigen as stg
+    viol = []
+    f0, rate, spread, n, dt = case['f0'], case['rate'], case['spread'], case['n'], case['dt']
+    t = np.arange(n, dtype=float) * dt
+    mk = lambda rt: stg.simple_rfi_path(f_start=f0, drift_rate=rate, spread=spread, spread_type=case['spread_type'],
+                                        rfi_type=rt, seed=case['rfi_seed'])
+    st, rw = np.asarray(mk('stationary')(t), dtype=float), np.asarray(mk('random_walk')(t), dtype=float)
+    line = np.array([f0 + rate * x for x in t])
+    off = st - line
+    eps = 64 * n * float(np.spacing(max(abs(f0), 1.0) + abs(rate) * n * dt + n * spread))
+    site = 'simple_rfi_path'
+    if st.shape != t.shape or rw.shape != t.shape:
+        viol.append({'site': site, 'failure': 'shape', 'detail': 'path(t) has shape %s for t of shape %s' % (st.shape, t.shape)})
+        return {'viol': viol}
+    if case['spread_type'] == 'uniform' and float(np.abs(off).max()) > spread / 2.0 + eps:
+        viol.append({'site': site, 'failure': 'uniform_offset_out_of_range',
+                     'detail': 'offset %r exceeds spread/2 = %r' % (float(np.abs(off).max()), spread / 2.0)})
+    acc = float(np.abs((rw - line) - np.cumsum(off)).max())
+    if acc > eps:
+        viol.append({'site': site, 'failure': 'random_walk_not_accumulated_offsets',
+                     'detail': 'random_walk offsets differ from the running sum of the stationary offsets of the '
+                               'identically seeded path by %r (eps %r): %r vs %r' % (acc, eps, list(rw - line), list(np.cumsum(off)))})
+    res = {'viol': viol, 'outcomes': ['rfi/%s/%d' % (case['spread_type'], n)]}
+    if n >= 2 and float(np.abs(off).max()) > 0:
+        res['nontrivial'] = [engine.sha(case)]
+    return res
+
+
 def case_selftest(case):
     bad = RS.selftest()
     return {'viol': [{'site': 'mc.refs.signal', 'failure': 'reference_selftest', 'detail': b}
@@ -553,6 +588,11 @@ def run(ctx):
     geoms = geometries(ctx.tier)
     ctx.pmap(case_selftest, [dict(selftest=1)], serial=True)
     counts = {}
+    fam = [dict(box='rfi_family', f0=f0, rate=rate, spread=sp, n=n, dt=dt, spread_type=st, rfi_seed=100 + k + 31 * ctx.seed)
+           for (f0, dt) in ((100.0, 1.0), (6e9, 18.253611008)) for rate in (0.0, 0.11) for sp in (1.5, 40.0)
+           for st in ('uniform', 'normal') for n in (1, 2, 3, 4, 5, 12) for k in range(3)]
+    counts['rfi_family'] = len(fam)
+    ctx.pmap(case_rfi_family, fam)
     # errors first (tiny), then the value boxes, simplest geometry first
     errs = [c for g in geoms for c in error_cases(g, ctx.seed)]
     counts['errors'] = len(errs)
